@@ -91,8 +91,15 @@ def _yields_only_items_of(ci: ClassInfo, fn: FuncInfo, attrs: set, depth: int) -
         return False
     loop_items = set()
     for x in walk_no_nested(fn.node):
-        if isinstance(x, ast.For) and isinstance(x.iter, ast.Attribute) and x.iter.attr in attrs and isinstance(x.target, ast.Name):
-            loop_items.update(id(y) for y in ast.walk(x) if isinstance(y, ast.Yield) and isinstance(y.value, ast.Name) and y.value.id == x.target.id)
+        if not isinstance(x, ast.For):
+            continue
+        src, item = x.iter, x.target
+        if isinstance(src, ast.Call) and isinstance(src.func, ast.Name) and src.func.id == "enumerate" and src.args and isinstance(item, ast.Tuple) and len(item.elts) == 2:
+            src, item = src.args[0], item.elts[1]  # for i, item in enumerate(self.attr, 1)
+        if isinstance(src, ast.Call) and isinstance(src.func, ast.Name) and src.func.id == "iter" and len(src.args) == 1:
+            src = src.args[0]
+        if isinstance(src, ast.Attribute) and src.attr in attrs and isinstance(item, ast.Name):
+            loop_items.update(id(y) for y in ast.walk(x) if isinstance(y, ast.Yield) and isinstance(y.value, ast.Name) and y.value.id == item.id)
     local_tables: dict = {}
     for x in walk_no_nested(fn.node):
         if isinstance(x, ast.Assign) and len(x.targets) == 1 and isinstance(x.targets[0], ast.Name) and isinstance(x.value, ast.Subscript) and isinstance(x.value.value, ast.Attribute) and isinstance(x.value.value.value, ast.Name) and x.value.value.value.id in ("self", "cls", ci.name):
@@ -108,7 +115,7 @@ def _yields_only_items_of(ci: ClassInfo, fn: FuncInfo, attrs: set, depth: int) -
         if isinstance(v, ast.Call):
             cands = None
             f = v.func
-            if isinstance(f, ast.Attribute) and isinstance(f.value, ast.Name) and f.value.id == "self" and not v.args:
+            if isinstance(f, ast.Attribute) and isinstance(f.value, ast.Name) and f.value.id == "self":
                 m = ci.methods.get(f.attr)
                 cands = [m] if m is not None else None
             elif isinstance(f, ast.Name) and f.id in local_tables and len(v.args) == 1 and isinstance(v.args[0], ast.Name) and v.args[0].id == "self":
